@@ -421,6 +421,10 @@ pub struct XlsbBook {
     /// complete bytes of parts by zip name (e.g. "xl/workbook.bin"): replaces the generated part of that name, or
     /// adds the part (malformed-part tests)
     pub raw_parts: Vec<(String, Vec<u8>)>,
+    /// `Some(seed)`: shared string items get rich-text runs (fRichStr) and / or phonetic data (fExtStr) behind the
+    /// text, and foreign records / skipped 0x23…0x24 blocks are written between the items — none of which changes
+    /// the strings the reader must return
+    pub sst_extras: Option<u64>,
 }
 
 impl Default for XlsbBook {
@@ -447,6 +451,7 @@ impl XlsbBook {
             workbook_pre: vec![],
             styles_pre: vec![],
             raw_parts: vec![],
+            sst_extras: None,
         }
     }
     pub fn sheet_path(&self, i: usize) -> String {
@@ -554,9 +559,53 @@ impl XlsbBook {
         let mut p = (sst.len() as u32).to_le_bytes().to_vec(); // cstTotal
         p.extend_from_slice(&(sst.len() as u32).to_le_bytes()); // cstUnique
         fr.rec(&mut o, 0x009F, &p); // BrtBeginSst
+        let mut ex = self.sst_extras.map(Rng::new);
         for s in sst {
-            let mut p = vec![0u8]; // flags: no rich text, no phonetic
+            let mut flags = 0u8;
+            let mut trailer: Vec<u8> = vec![];
+            if let Some(rng) = &mut ex {
+                // foreign records in front of the item: unknown ids, and a block of future records (which may hold
+                // something that looks like an item)
+                while rng.chance(1, 4) {
+                    if rng.chance(1, 2) {
+                        let id = *rng.pick(&[0x0001u16, 0x0012, 0x0014, 0x00A0, 0x3FFF, 0x0427]);
+                        let n = rng.below(12) as usize;
+                        let p = rng.bytes(n);
+                        fr.rec(&mut o, id, &p);
+                    } else {
+                        fr.rec(&mut o, 0x0023, &[0xFF, 0xFF, 0xFF, 0xFF]);
+                        if rng.chance(1, 2) {
+                            let mut p = vec![0u8];
+                            p.extend_from_slice(&wide_str("not an item"));
+                            fr.rec(&mut o, 0x0013, &p);
+                        }
+                        fr.rec(&mut o, 0x0024, &[]);
+                    }
+                }
+                if rng.chance(1, 2) {
+                    flags |= 1; // fRichStr: dwSizeStrRun, rgsStrRun (ich, ifnt)
+                    let n = rng.below(4) as u32;
+                    trailer.extend_from_slice(&n.to_le_bytes());
+                    for i in 0..n {
+                        trailer.extend_from_slice(&(i as u16).to_le_bytes());
+                        trailer.extend_from_slice(&(rng.below(5) as u16).to_le_bytes());
+                    }
+                }
+                if rng.chance(1, 2) {
+                    flags |= 2; // fExtStr: phoneticStr, dwPhoneticRun, rgsPhRun (ichFirst, ichMom, cchMom)
+                    trailer.extend_from_slice(&wide_str(*rng.pick(&["フリガナ", "", "ab"])));
+                    let n = rng.below(3) as u32;
+                    trailer.extend_from_slice(&n.to_le_bytes());
+                    for i in 0..n {
+                        trailer.extend_from_slice(&(i as u16).to_le_bytes());
+                        trailer.extend_from_slice(&(i as u16).to_le_bytes());
+                        trailer.extend_from_slice(&1u16.to_le_bytes());
+                    }
+                }
+            }
+            let mut p = vec![flags];
             p.extend_from_slice(&wide_units(s));
+            p.extend_from_slice(&trailer);
             fr.rec(&mut o, 0x0013, &p); // BrtSSTItem
         }
         fr.rec(&mut o, 0x00A0, &[]); // BrtEndSst
